@@ -34,6 +34,7 @@ func init() {
 }
 
 func runC10(c *an.Ctx) {
+	c10Access(c)
 	c.Inf("C10-R5", "pooled buffers", token.NoPos, "%d Pool.Get sites of byte buffers / string builders in the access code checked for Reset-before-use",
 		sharedPoolBufferReset(c, "C10-R5", "access.", "dnssvc/internal/ratelimitmw."))
 	sharedErrorsAs(c, "C10-R2", 1, "dnssvc/internal/ratelimitmw.")
@@ -348,4 +349,73 @@ func runC10(c *an.Ctx) {
 
 	c.Except("C10-R2", "ratelimitmw.(*Middleware).processLocationErr",
 		"a malformed ECS option is answered with FORMERR before any access decision (C05 demands it)")
+}
+
+// c10Access holds further tables of package access: the engine verdicts, the
+// subnet matcher and the constructor's field map.
+func c10Access(c *an.Ctx) {
+	c.Floor("C10-R6", 6)
+	verdict := func(fnKey, engine string) {
+		decide(c, "C10-R6", fnKey, an.DecideCfg{
+			Dom: an.Domain{"matched": an.Bools, "res.NetworkRule": {an.Nil(), an.NonNil("rule")}, "rule.Whitelist": an.Bools},
+			Inline: func(f *ssa.Function) bool { return false },
+			OnCall: func(it *an.Interp, name string, args []an.AV) (an.AV, bool) {
+				switch {
+				case strings.HasSuffix(name, "DNSEngine).MatchRequest"):
+					return an.AV{Kind: an.KTuple, Tup: []an.AV{an.NonNil("res"), it.Feature("matched")}}, true
+				case strings.HasSuffix(name, "sync.Once).Do"), strings.HasSuffix(name, "agdnet.NormalizeQueryDomain"):
+					return an.Sym("x"), true
+				}
+				return an.AV{}, false
+			},
+			Expect: func(f an.Features, o an.AOutcome) string {
+				want := f.B("matched")
+				if f.B("matched") && !f.IsNil("res.NetworkRule") {
+					want = !f.B("rule.Whitelist")
+				}
+				if o.RetString() != fmt.Sprint(want) {
+					return fmt.Sprintf("%v (blocked iff a rule matches and it is not an allow rule); got %s", want, o.RetString())
+				}
+				return ""
+			},
+		})
+	}
+	verdict("access.(*Global).IsBlockedHost", "p0.blockedHostsEng")
+	verdict("access.(*blockedHostEngine).isBlocked", "p0.lazyEngine")
+	decide(c, "C10-R6", "access.matchNets", an.DecideCfg{
+		Dom: an.Domain{"len(p0)": an.Ints(0, 2), "in0": an.Bools, "in1": an.Bools},
+		OnCall: func(it *an.Interp, name string, args []an.AV) (an.AV, bool) {
+			if name == "(net/netip.Prefix).Contains" {
+				if args[1].String() != "p1" {
+					return an.Sym("containment of another address"), true
+				}
+				if strings.Contains(args[0].String(), "[1]") {
+					return it.Feature("in1"), true
+				}
+				return it.Feature("in0"), true
+			}
+			return an.AV{}, false
+		},
+		Expect: func(f an.Features, o an.AOutcome) string {
+			want := f.I("len(p0)") == 2 && (f.B("in0") || f.B("in1"))
+			if o.RetString() != fmt.Sprint(want) {
+				return fmt.Sprintf("%v (true iff some subnet of the list contains the address); got %s", want, o.RetString())
+			}
+			return ""
+		},
+	})
+	checkFieldMap(c, "C10-R6", "access.NewDefaultProfile", "access.DefaultProfile", map[string]string{
+		"allowedNets": ".AllowedNets", "blockedNets": ".BlockedNets", "allowedASN": ".AllowedASN", "blockedASN": ".BlockedASN",
+		"blocklistDomainRules": ".BlocklistDomainRules"})
+	// the profile's engine is built from the profile's own rules
+	if fn := c.Fn("access.NewDefaultProfile"); fn != nil {
+		ok := false
+		for _, call := range an.CallsTo(fn, "access.newBlockedHostEngine") {
+			if ap, isPath := an.AccessPath(call.Common().Args[0]); isPath && strings.HasSuffix(ap, ".BlocklistDomainRules") {
+				ok = true
+			}
+		}
+		c.Check(ok, "C10-R6", "access.NewDefaultProfile engine rules", fn.Pos(), "the host engine is built from the profile's blocklist rules",
+			"the profile's host engine is not built from its own blocklist rules")
+	}
 }
